@@ -155,31 +155,76 @@ type Clock struct {
 func (c *Clock) Now() time.Time { c.mu.Lock(); defer c.mu.Unlock(); return c.T }
 func (c *Clock) Set(t time.Time) { c.mu.Lock(); c.T = t; c.mu.Unlock() }
 
-// ReqLog records what the front end reports through RequestLog.
+// ReqLog records what the front end reports through RequestLog.  If Inner is set every call is
+// forwarded to it as well (e.g. the production ctfe.DefaultRequestLog), after recording.
 type ReqLog struct {
 	mu       sync.Mutex
 	Issued   [][]byte
 	Statuses []int
+	Inner    ctfe.RequestLog
 }
 
-func (l *ReqLog) Start(c context.Context) context.Context            { return c }
-func (l *ReqLog) LogPrefix(context.Context, string)                  {}
-func (l *ReqLog) AddDERToChain(context.Context, []byte)              {}
-func (l *ReqLog) AddCertToChain(context.Context, *ctx509.Certificate) {}
-func (l *ReqLog) FirstAndSecond(context.Context, int64, int64)       {}
-func (l *ReqLog) StartAndEnd(context.Context, int64, int64)          {}
-func (l *ReqLog) LeafIndex(context.Context, int64)                   {}
-func (l *ReqLog) TreeSize(context.Context, int64)                    {}
-func (l *ReqLog) LeafHash(context.Context, []byte)                   {}
-func (l *ReqLog) IssueSCT(_ context.Context, b []byte) {
+func (l *ReqLog) Start(c context.Context) context.Context {
+	if l.Inner != nil {
+		return l.Inner.Start(c)
+	}
+	return c
+}
+func (l *ReqLog) LogPrefix(c context.Context, p string) {
+	if l.Inner != nil {
+		l.Inner.LogPrefix(c, p)
+	}
+}
+func (l *ReqLog) AddDERToChain(c context.Context, d []byte) {
+	if l.Inner != nil {
+		l.Inner.AddDERToChain(c, d)
+	}
+}
+func (l *ReqLog) AddCertToChain(c context.Context, cert *ctx509.Certificate) {
+	if l.Inner != nil {
+		l.Inner.AddCertToChain(c, cert)
+	}
+}
+func (l *ReqLog) FirstAndSecond(c context.Context, f, s int64) {
+	if l.Inner != nil {
+		l.Inner.FirstAndSecond(c, f, s)
+	}
+}
+func (l *ReqLog) StartAndEnd(c context.Context, s, e int64) {
+	if l.Inner != nil {
+		l.Inner.StartAndEnd(c, s, e)
+	}
+}
+func (l *ReqLog) LeafIndex(c context.Context, i int64) {
+	if l.Inner != nil {
+		l.Inner.LeafIndex(c, i)
+	}
+}
+func (l *ReqLog) TreeSize(c context.Context, n int64) {
+	if l.Inner != nil {
+		l.Inner.TreeSize(c, n)
+	}
+}
+func (l *ReqLog) LeafHash(c context.Context, h []byte) {
+	if l.Inner != nil {
+		l.Inner.LeafHash(c, h)
+	}
+}
+func (l *ReqLog) IssueSCT(c context.Context, b []byte) {
 	l.mu.Lock()
 	l.Issued = append(l.Issued, append([]byte{}, b...))
 	l.mu.Unlock()
+	if l.Inner != nil {
+		l.Inner.IssueSCT(c, b)
+	}
 }
-func (l *ReqLog) Status(_ context.Context, s int) {
+func (l *ReqLog) Status(c context.Context, s int) {
 	l.mu.Lock()
 	l.Statuses = append(l.Statuses, s)
 	l.mu.Unlock()
+	if l.Inner != nil {
+		l.Inner.Status(c, s)
+	}
 }
 
 // Reset clears and returns (issued SCTs, statuses).
@@ -207,6 +252,12 @@ type Options struct {
 	// WrapSigner, if set, wraps the log's signer (the one that signs SCTs and STHs) before the
 	// instance sees it: latency, gates and failures of the signer.  Public() must stay the log key's.
 	WrapSigner func(crypto.Signer) crypto.Signer
+	// Quota users (InstanceOptions.CertificateQuotaUser / RemoteQuotaUser); nil = no quota, as before.
+	CertificateQuotaUser func(*ctx509.Certificate) string
+	RemoteQuotaUser      func(*http.Request) string
+	// RequestLogInner, if set, receives every RequestLog call after the recording ReqLog
+	// (e.g. new(ctfe.DefaultRequestLog), what ct_server installs).
+	RequestLogInner ctfe.RequestLog
 }
 
 // Env is a constructed instance with its collaborators.
@@ -259,13 +310,14 @@ func New(o Options) (*Env, error) {
 		return nil, fmt.Errorf("ValidateLogConfig: %w", err)
 	}
 	be := &Backend{}
-	rl := &ReqLog{}
+	rl := &ReqLog{Inner: o.RequestLogInner}
 	dl := o.Deadline
 	if dl == 0 {
 		dl = 10 * time.Second
 	}
 	iopts := ctfe.InstanceOptions{Validated: vc, Client: be, Deadline: dl, MetricFactory: monitoring.InertMetricFactory{},
-		RequestLog: rl, MaskInternalErrors: o.Mask, ErrorMapper: o.ErrorMapper, STHStorage: o.STHStorage}
+		RequestLog: rl, MaskInternalErrors: o.Mask, ErrorMapper: o.ErrorMapper, STHStorage: o.STHStorage,
+		CertificateQuotaUser: o.CertificateQuotaUser, RemoteQuotaUser: o.RemoteQuotaUser}
 	clk := &Clock{T: time.Date(2024, 5, 6, 7, 8, 9, 123456789, time.UTC)}
 	var inst *ctfe.Instance
 	setupMu.Lock()
